@@ -294,23 +294,31 @@ def gen_func(rng, max_blocks=4, sig=None, genv=()):
         parts = [b["ident"]]
         for i in b["insts"]:
             r, t = i["row"], i["ty"]
+            # flag keywords (positions in the row's keyword list): nuw / nsw in any order and multiplicity, exact, volatile, fast-math flags
+            fl = ""
+            if r in (0, 1, 2, 7):
+                fl = "F%s!" % ",".join(str(rng.randrange(2)) for _ in range(rng.choice([0, 0, 1, 2, 2, 3])))
+            elif r in (3, 4, 8, 9, 23, 24, 73):
+                fl = "F%s!" % rng.choice(["", "", "0"])
+            elif 45 <= r <= 50:
+                fl = "F%s!" % ",".join(str(rng.randrange(8)) for _ in range(rng.choice([0, 0, 1, 2, 4])))
             if r in (74, 75):
                 rt, pts = fptr_sig(t)
                 args = ("T%s!" % rt if r == 75 else "") + "V%s!G%s" % (ref_operand(t), "&".join("%s=%s" % (pt, operand(pt)) for pt in pts))
             elif r < 23:
-                args = "P%s=%s!V%s" % (t, operand(t), operand(t))
+                args = fl + "P%s=%s!V%s" % (t, operand(t), operand(t))
             elif r == 23:
-                args = "T%s!P%s=%s!A%s" % (pointee(t), t, operand(t), rng.choice(ALIGNS))
+                args = fl + "T%s!P%s=%s!A%s" % (pointee(t), t, operand(t), rng.choice(ALIGNS))
             elif r == 24:
-                args = "P%s=%s!P%s=%s!A%s" % (pointee(t), operand(pointee(t)), t, operand(t), rng.choice(ALIGNS))
+                args = fl + "P%s=%s!P%s=%s!A%s" % (pointee(t), operand(pointee(t)), t, operand(t), rng.choice(ALIGNS))
             elif 30 <= r <= 42:
                 args = "P%s=%s!T%s" % (t, operand(t), i["to"])
             elif r == 43:
                 args = "T%s!H%s" % (t, "&".join("%s~%s" % (operand(t), rng.choice(labels)) for _ in range(i["n"])))
             elif r in (44, 45):
-                args = "P%s=%s" % (t, operand(t))
+                args = fl + "P%s=%s" % (t, operand(t))
             elif 46 <= r <= 66:
-                args = "P%s=%s!V%s" % (t, operand(t), operand(t))
+                args = fl + "P%s=%s!V%s" % (t, operand(t), operand(t))
             elif r == 67:
                 args = "P%s=%s!P%s=%s" % (t, operand(t), i["ity"], operand(i["ity"]))
             elif r == 68:
@@ -347,7 +355,7 @@ def gen_func(rng, max_blocks=4, sig=None, genv=()):
                             else:
                                 depth += ch == "("; depth -= ch == ")"; cc += ch
                         fields.append(cc); cur = fields[k]
-                args = "T%s!P%s=%s!G%s" % (t, bt, operand(bt, nolazy=True), "&".join(ixs))
+                args = fl + "T%s!P%s=%s!G%s" % (t, bt, operand(bt, nolazy=True), "&".join(ixs))
             elif r == 71:
                 args = "P%s=%s!K%s" % (t, operand(t), ",".join(map(str, i["path"])))
             elif r == 72:
@@ -387,6 +395,16 @@ def mutants(rng, text):
         # a function definition on its own defines no global: any `@name` operand is undefined (the global environment of M-Whole is empty here)
         k, m = rng.choice(uses)
         out.append(("global-operand", with_line(k, lines[k][:m.start()] + b"@" + m.group(0)[1:] + lines[k][m.end():])))
+    flagged = [(k, m) for k in body for m in re.finditer(rb"\b(nuw|nsw|exact|volatile|inbounds|nnan|ninf|nsz|arcp|contract|afn|reassoc|fast) ", lines[k])]
+    if flagged:
+        # a flag keyword written twice (a list for nuw / nsw and the fast-math flags; a syntax error for `exact` and `volatile`)
+        k, m = rng.choice(flagged)
+        out.append(("flag-doubled", with_line(k, lines[k][:m.start()] + m.group(0) + m.group(0) + lines[k][m.end():])))
+        k, m = rng.choice(flagged)
+        out.append(("flag-dropped", with_line(k, lines[k][:m.start()] + lines[k][m.end():])))
+        k, m = rng.choice(flagged)
+        # a flag of another instruction family
+        out.append(("flag-foreign", with_line(k, lines[k][:m.start()] + (b"exact " if m.group(1) != b"exact" else b"nuw ") + lines[k][m.end():])))
     if len(defs) >= 2:
         (k1, m1), (k2, m2) = rng.sample(defs, 2)
         out.append(("duplicate-def", with_line(k2, b"\t" + m1.group(1) + lines[k2][m2.end(1) + 1:])))
